@@ -1,9 +1,9 @@
 """C14 — no script or witness content can abort a run or disturb other rows."""
-from .. import gen_scripts as G, scriptcheck as S
+from .. import bb, chain as K, gen_chain as GC, gen_scripts as G, scriptcheck as S
 
 NAMESPACE = "Rbp.Props.C14"
-REQUIRED = []
-LEAN_FILES = ["Rbp/Model/Script.lean"]
+REQUIRED = ["evalCustom_total", "tokeniser_total"]
+LEAN_FILES = ["Rbp/Model/Script.lean", "Rbp/Model/ScriptMachine.lean", "Rbp/Proofs/ScriptMachine.lean"]
 RULE = ("panic behaviour of the real script evaluation (catch_unwind per request, dev profile = overflow checks on) on all 8 version bytes: boundary + bulk families of C05/C06 "
         "plus stress families (1..5000 pushes, 1 KB..100 KB scripts, PUSHDATA4 with lengths up to 2^32-1, invalid UTF-8 after OP_RETURN); the model is total, so any PANIC answer is a violation; "
         "non-trivial = non-empty script typed other than NotRecognised by the model or a mutation; distinct (version, script) pairs")
@@ -21,10 +21,68 @@ def correspondence(ctx):
             return G.VERS
         return [G.VERS[i % 8], G.VERS[(i * 7 + 3) % 8]]
     S.run(ctx, cases, versions_of, project)
+    blackbox(ctx)
+
+
+CALLBACKS = ["csvdump", "unspentcsvdump", "balances", "simplestats", "opreturn"]
+
+
+def comparators(cb):
+    c = [bb.cmp_exit, bb.cmp_names]
+    if cb in ("csvdump", "unspentcsvdump", "balances"):
+        c.append(bb.cmp_rows)
+    elif cb == "opreturn":
+        c.append(bb.cmp_opreturn)
+    else:
+        c.append(bb.cmp_stats)
+    return c
+
+
+def blackbox(ctx):
+    """adversarial bytes in scriptPubKey, scriptSig and witness items of otherwise valid chains: every callback on every coin
+    must exit 0 and produce exactly the model's output (rows not derived from the field are therefore untouched)"""
+    r = ctx.sub_rnd("c14-bb")
+    pool = [s for _f, s in G.boundary(r, exhaustive=False) if len(s) < 400] + [s for _f, s in G.stress(r, False) if len(s) <= 10001]
+    def nasty(rr, coin=None):
+        k = rr.random()
+        if k < 0.6:
+            return rr.choice(pool)
+        if k < 0.8:
+            return G.mutate(rr, G.tmpl(rr)[1])
+        return GC.rb(rr, rr.choice([0, 1, 5, 100, 1000]))
+    by_cb = {}
+    for i in range(ctx.n(40, 400)):
+        coin = K.COINS[i % 8]
+        cb = CALLBACKS[(i // 8) % 5]
+        blocks = GC.gen_chain(r, coin, r.randrange(2, 6), max_txs=3, max_io=3, scripts=nasty, auxpow_mix=False)
+        for b in blocks:
+            for t in b.txs[1:]:
+                t.ins = [(h, ix, nasty(r), q) for (h, ix, _s, q) in t.ins]
+                if t.segwit:
+                    mw, flag, stacks = t.segwit
+                    t.segwit = (mw, flag, [[nasty(r) for _ in st] for st in stacks])
+        prev = b"\0" * 32
+        for b in blocks:
+            b.prev = prev
+            b.merkle_root = None
+            prev = b.hash()
+        s = K.Scenario(coin=coin, callback=cb)
+        GC.simple_layout(s, blocks, per_file=r.choice([None, 2]))
+        s.meta = {"i": i}
+        by_cb.setdefault(cb, []).append(s)
+    for cb, scns in by_cb.items():
+        impl, model = bb.check(ctx, "adversarial-chains:" + cb, scns, comparators(cb))
+        for s, res in zip(scns, impl):
+            if res.exit != 0:
+                ctx.disagree("adversarial-chains:must-complete", bb.describe(s), {"exit": res.exit, "stderr": res.stderr.decode(errors="replace")[-300:]}, {"expected": "exit 0"}, True, {"scenario": bb.scenario_dump(s), "observable": "exit-status"})
 
 
 def replay(ctx, rep, corpus=None):
-    S.replay_one(ctx, rep, project)
+    d = rep.get("failing_input", rep)
+    if d.get("scenario"):
+        bb.replay_scenario(ctx, rep, comparators(d["scenario"].get("callback", "csvdump")))
+    else:
+        S.replay_one(ctx, rep, project)
 
 
 def shrink(ctx, d):
